@@ -278,6 +278,8 @@ def run(st, tier, seed):
                     rr.append(("wild",)); wild = True
             reps.append(rr)
 
+        opt_ = rng.choice([1.0, 1.0, 0, 0.0, 2.5])     # the optimisation parameter ([no-opt] = 0) has no say in what is a well-formed structure
+
         def build(doms=doms, reps=reps):
             comp = Component("c", "", [])
             names = []
@@ -301,7 +303,7 @@ def run(st, tier, seed):
                 comp.add_strand(False, "S%d" % si, ds, sum(dm) if any(r_[0] == "wild" for r_ in reps[si]) else None)
                 names.append("S%d" % si)
             dp = parse_structure_statement(stmt(spell_plain(rng, d), True))[3]
-            comp.add_structure(1.0, "X", names, dp)
+            comp.add_structure(opt_, "X", names, dp)
             return comp.structs["X"].struct
         r = call(build)
         res.evaluations += 1
